@@ -94,6 +94,15 @@ def getSymbol : Expr → Sym
       | _ => 0
     else 0
 
+/-- the member symbol carried by a `P.x` node on a process (0 = none) -/
+def dotSym : Expr → Sym
+  | .node k s _ => if k = .kDOT then s else 0
+
+/-- which function a call node calls: `get(0).get_symbol()`, or -- when the source resolves `P.f` callees
+    (`called_function_symbol`) -- the member symbol of a process-dot callee -/
+def calleeSym (resolvesDot : Bool) (f : Expr) : Sym :=
+  if resolvesDot && dotSym f != 0 then dotSym f else getSymbol f
+
 /-! ### expression_t::get_symbols (table generated) -/
 
 mutual
@@ -124,7 +133,7 @@ def collectWrites (cfg : Cfg) (env : Env) : Expr → List Sym
      else if cfg.writeCallKinds.contains k then
        match subs with
        | f :: args =>
-         match env.find (getSymbol f) with
+         match env.find (calleeSym cfg.writeCallResolvesDot f) with
          | some fi => (if cfg.callAddsChanges then fi.changes else []) ++
                       (if cfg.callAddsRefArgs then refArgSymbols cfg fi.refNonConst args else [])
          | none => []
@@ -148,7 +157,7 @@ def collectReads (cfg : Cfg) (env : Env) (rnd : Bool) : Expr → List Sym
      else if cfg.readCallKinds.contains k then
        match subs with
        | f :: _ =>
-         match env.find (getSymbol f) with
+         match env.find (calleeSym cfg.readCallResolvesDot f) with
          | some fi => if cfg.callAddsDepends then fi.depends else []
          | none => []
        | [] => []
@@ -252,7 +261,7 @@ def calleeSyms : Expr → List Sym
   | .node k _ subs =>
     (if callKinds.contains k then
        match subs with
-       | f :: _ => [getSymbol f]
+       | f :: _ => [getSymbol f, dotSym f]
        | [] => []
      else []) ++ calleeSymsL subs
 def calleeSymsL : List Expr → List Sym
